@@ -651,6 +651,151 @@ fn cfg_cmd(lib: &str) {
     );
 }
 
+// ---------------------------------------------------------------------------------------------
+// `translate panics <dir>`: inventory for C18 of the expressions that can abort an expansion.
+
+const PANIC_MACROS: &[&str] = &["panic", "unreachable", "unimplemented", "todo", "assert", "assert_eq", "assert_ne", "debug_assert", "debug_assert_eq"];
+const PANIC_METHODS: &[&str] = &["unwrap", "expect", "push_value", "push_punct", "remove", "swap_remove", "split_at", "split_off", "drain", "unwrap_err", "expect_err"];
+const TEMPLATE_MACROS: &[&str] = &["quote", "quote_spanned"];
+
+struct PanicVisitor {
+    file: String,
+    fns: Vec<String>,
+    out: Vec<String>,
+}
+
+impl PanicVisitor {
+    fn site(&mut self, kind: &str, line: usize, text: String) {
+        let f = self.fns.last().cloned().unwrap_or_default();
+        let mut t = text.replace(' ', "");
+        t.truncate(120);
+        self.out.push(format!("{{\"file\":{},\"fn\":{},\"kind\":{},\"line\":{},\"text\":{}}}", js(&self.file), js(&f), js(kind), line, js(&t)));
+    }
+    fn scan_macro_args(&mut self, ts: TokenStream) {
+        let toks: Vec<TokenTree> = ts.into_iter().collect();
+        for (i, t) in toks.iter().enumerate() {
+            match t {
+                TokenTree::Group(g) => self.scan_macro_args(g.stream()),
+                TokenTree::Ident(id) => {
+                    let n = id.to_string();
+                    let after_dot = i > 0 && matches!(&toks[i - 1], TokenTree::Punct(p) if p.as_char() == '.');
+                    let called = matches!(toks.get(i + 1), Some(TokenTree::Group(g)) if g.delimiter() == Delimiter::Parenthesis);
+                    if after_dot && called && PANIC_METHODS.contains(&n.as_str()) {
+                        self.site(&n, id.span().start().line, format!(".{n}(..) in macro arguments"));
+                    }
+                }
+                _ => {}
+            }
+        }
+    }
+}
+
+fn has_cfg_test(attrs: &[syn::Attribute]) -> bool {
+    attrs.iter().any(|a| a.path().is_ident("cfg") && quote::ToTokens::to_token_stream(&a.meta).to_string().replace(' ', "").contains("cfg(test)"))
+}
+
+impl<'ast> syn::visit::Visit<'ast> for PanicVisitor {
+    fn visit_item_mod(&mut self, m: &'ast syn::ItemMod) {
+        if has_cfg_test(&m.attrs) {
+            return;
+        }
+        syn::visit::visit_item_mod(self, m);
+    }
+    fn visit_item_fn(&mut self, f: &'ast syn::ItemFn) {
+        if has_cfg_test(&f.attrs) || f.attrs.iter().any(|a| a.path().is_ident("test")) {
+            return;
+        }
+        self.fns.push(f.sig.ident.to_string());
+        syn::visit::visit_item_fn(self, f);
+        self.fns.pop();
+    }
+    fn visit_impl_item_fn(&mut self, f: &'ast syn::ImplItemFn) {
+        self.fns.push(f.sig.ident.to_string());
+        syn::visit::visit_impl_item_fn(self, f);
+        self.fns.pop();
+    }
+    fn visit_trait_item_fn(&mut self, f: &'ast syn::TraitItemFn) {
+        self.fns.push(f.sig.ident.to_string());
+        syn::visit::visit_trait_item_fn(self, f);
+        self.fns.pop();
+    }
+    fn visit_expr_index(&mut self, e: &'ast syn::ExprIndex) {
+        let line = e.bracket_token.span.open().start().line;
+        self.site("index", line, quote::ToTokens::to_token_stream(e).to_string());
+        syn::visit::visit_expr_index(self, e);
+    }
+    fn visit_expr_method_call(&mut self, e: &'ast syn::ExprMethodCall) {
+        let n = e.method.to_string();
+        if PANIC_METHODS.contains(&n.as_str()) {
+            self.site(&n, e.method.span().start().line, quote::ToTokens::to_token_stream(e).to_string());
+        }
+        syn::visit::visit_expr_method_call(self, e);
+    }
+    fn visit_expr_binary(&mut self, e: &'ast syn::ExprBinary) {
+        let k = match e.op {
+            syn::BinOp::Sub(_) | syn::BinOp::SubAssign(_) => Some("sub"),
+            syn::BinOp::Div(_) | syn::BinOp::DivAssign(_) => Some("div"),
+            syn::BinOp::Rem(_) | syn::BinOp::RemAssign(_) => Some("rem"),
+            _ => None,
+        };
+        if let Some(k) = k {
+            let line = match &e.op {
+                syn::BinOp::Sub(t) => t.span.start().line,
+                syn::BinOp::SubAssign(t) => t.spans[0].start().line,
+                syn::BinOp::Div(t) => t.span.start().line,
+                syn::BinOp::DivAssign(t) => t.spans[0].start().line,
+                syn::BinOp::Rem(t) => t.span.start().line,
+                syn::BinOp::RemAssign(t) => t.spans[0].start().line,
+                _ => 0,
+            };
+            self.site(k, line, quote::ToTokens::to_token_stream(e).to_string());
+        }
+        syn::visit::visit_expr_binary(self, e);
+    }
+    fn visit_expr_call(&mut self, e: &'ast syn::ExprCall) {
+        if let syn::Expr::Path(p) = &*e.func {
+            let s = path_str(&p.path);
+            if s.ends_with("Ident::new") || s.ends_with("Index::from") || s.ends_with("Literal::from_str") {
+                let line = p.path.segments[0].ident.span().start().line;
+                self.site("ident_new", line, quote::ToTokens::to_token_stream(e).to_string());
+            }
+        }
+        syn::visit::visit_expr_call(self, e);
+    }
+    fn visit_macro(&mut self, m: &'ast syn::Macro) {
+        let n = m.path.segments.last().map(|s| s.ident.to_string()).unwrap_or_default();
+        let line = m.path.segments[0].ident.span().start().line;
+        if PANIC_MACROS.contains(&n.as_str()) {
+            let mut t = m.tokens.to_string();
+            t.truncate(100);
+            self.site(&format!("{n}!"), line, t);
+        } else if n == "format_ident" || n == "parse_quote" || n == "parse_quote_spanned" {
+            self.site(&format!("{n}!"), line, String::new());
+        }
+        if !TEMPLATE_MACROS.contains(&n.as_str()) && n != "parse_quote" && n != "parse_quote_spanned" {
+            self.scan_macro_args(m.tokens.clone());
+        }
+    }
+}
+
+fn panics(root: &str) {
+    let mut files = Vec::new();
+    walk(Path::new(root), &mut files);
+    for f in files {
+        let src = fs::read_to_string(&f).unwrap();
+        match syn::parse_file(&src) {
+            Ok(ast) => {
+                let mut v = PanicVisitor { file: f.clone(), fns: vec![], out: vec![] };
+                syn::visit::visit_file(&mut v, &ast);
+                for l in v.out {
+                    println!("{l}");
+                }
+            }
+            Err(e) => println!("{{\"file\":{},\"error\":{}}}", js(&f), js(&e.to_string())),
+        }
+    }
+}
+
 fn main() {
     let args: Vec<String> = env::args().collect();
     match args.get(1).map(|s| s.as_str()) {
@@ -675,6 +820,7 @@ fn main() {
             }
         }
         Some("sites") => sites(&args[2]),
+        Some("panics") => panics(&args[2]),
         Some("cfg") => cfg_cmd(&args[2]),
         Some("tokens") => {
             let src = fs::read_to_string(&args[2]).unwrap();
